@@ -643,6 +643,22 @@ class ProjectBuilder:
         return self.prj
 
 
+def add_array_tag(prj, rng, name, atom, n):
+    """one more controller-scoped user tag `name: atom[n]` with a random memory image (before the driver uploads the tag list)"""
+    used = {t.instance_id for t in prj.symbols} | {t.instance_id for p in prj.programs.values() for t in p["symbols"]}
+    while True:
+        iid = rng.randrange(256, 65536)
+        if iid not in used:
+            break
+    t = Tag(name, ATOM_TYPES[atom], (n,), instance_id=iid)
+    t.attr3, t.attr5 = rng.getrandbits(32), rng.getrandbits(32)
+    t.attr6 = rng.getrandbits(32) | BASE_TAG_BIT
+    t.data = bytearray(rng.getrandbits(8) for _ in range(ATOM_TYPES[atom].size * n))
+    prj.symbols.append(t)
+    prj.symbols.sort(key=lambda x: x.instance_id)
+    return t
+
+
 def redefine_type(prj, rng):
     """Controller program edited and re-downloaded: a UDT that is not nested in another type gets a new member list
     under the SAME template instance id (new structure handle).  Returns the type or None."""
